@@ -38,6 +38,9 @@ MUTATIONS = {
     # the transcript constructor voids a CDS that has no base in the chunk (the anchored "CDS dropped when sliced out" branch made live)
     "c07-transcript-drops-sliced-out-cds": (["C07"], T, "            except LocationOverlapException:\n                self.cds = None\n",
                                             "            except LocationOverlapException:\n                self.cds = None\n            if self.cds is not None and self.cds.chunk_relative_location.is_empty:\n                self.cds = None\n"),
+    # history dependence: once the chunk-relative codon tuple is cached, a chromosome-level answer is taken from it
+    "c07-num-codons-from-cached-chunk-tuple": (["C07"], C, "        return len(self.chromosome_codon_locations)\n",
+                                               "        return len(self.chunk_relative_codon_locations) if self._chunk_relative_codon_locations_cached else len(self.chromosome_codon_locations)\n"),
     # computed identifier of a leaf class digests chunk-relative coordinates (the K8 mechanism moved into CDSInterval)
     "c07-cds-guid-digests-chunk-blocks": (["C07"], C, "            self.guid = digest_object(\n                self._genomic_starts,\n                self._genomic_ends,\n                self.strand,\n                self.frames,\n",
                                           "            self.guid = digest_object(\n                [x.start for x in self._location.blocks] if not self._location.is_empty else [],\n                self._genomic_ends,\n                self.strand,\n                self.frames,\n"),
